@@ -83,12 +83,23 @@ class DifferentialEvolutionHyperbandBracketManager(SynchronousHyperbandBracketMa
                     )
             else:
                 # For bracket with offset 0, the parent rung is the base
-                # rung in a bracket to the left
+                # rung in a bracket to the left. If there are fewer brackets
+                # than rung levels, no bracket starts at the higher levels.
+                # The most recent bracket containing such a level is the
+                # one just to the left (the last one of the previous
+                # iteration)
+                last_offset = self.num_bracket_offsets - 1
                 for rung_index, (_, level) in enumerate(rungs):
-                    parent_rung[(offset, level)] = (
-                        self.num_bracket_offsets - rung_index,
-                        0,
-                    )
+                    if rung_index <= last_offset:
+                        parent_rung[(offset, level)] = (
+                            self.num_bracket_offsets - rung_index,
+                            0,
+                        )
+                    else:
+                        parent_rung[(offset, level)] = (
+                            1,
+                            rung_index - last_offset,
+                        )
         return parent_rung
 
     def _create_new_bracket(self) -> int:
